@@ -183,6 +183,33 @@ func buildOracle(b builds, cfg tierCfg, pre map[int]string) oracleInfo {
 		}
 		iw.Wait()
 	}
+	instCrashSeen := false
+	instAlone := func(ids []int) {
+		var iw sync.WaitGroup
+		for _, id := range ids {
+			isoMu.Lock()
+			_, ex := excluded[id]
+			isoMu.Unlock()
+			if ex {
+				continue
+			}
+			iw.Add(1)
+			sem <- struct{}{}
+			go func(id int) {
+				defer iw.Done()
+				defer func() { <-sem }()
+				for k := 0; k < 2; k++ {
+					if o := oracleRun(b.plain, cfg.procWall, corpusPath, "canonical", []int{id}); o.Crash == "" {
+						return
+					}
+				}
+				isoMu.Lock()
+				excluded[id] = "kills the process even alone when the library is told it has several processors (instrumented build)"
+				isoMu.Unlock()
+			}(id)
+		}
+		iw.Wait()
+	}
 	all := make([]int, n)
 	for i := range all {
 		all[i] = i
@@ -224,7 +251,7 @@ func buildOracle(b builds, cfg tierCfg, pre map[int]string) oracleInfo {
 		go func() { defer wg.Done(); inst = oracleRun(b.plain, 4*cfg.procWall, corpusPath, "canonical", ids) }()
 		wg.Wait()
 		again := false
-		for _, o := range []proto.OracleOut{canon, rev, shuf, inst, soak} {
+		for oi2, o := range []proto.OracleOut{canon, rev, shuf, inst, soak} {
 			at := -1
 			if o.Crash != "" {
 				at = o.CrashAt
@@ -234,6 +261,14 @@ func buildOracle(b builds, cfg tierCfg, pre map[int]string) oracleInfo {
 			if at >= 0 && at < len(o.IDs) {
 				x := o.IDs[at]
 				isoOf([]int{x})
+				if _, ex := excluded[x]; !ex && oi2 == 3 && o.Crash != "" {
+					// the instrumented pass died where the reference returns: the library may
+					// take another path when it is told it has several processors (the
+					// reference processes really have one). Input-only as well if the call
+					// kills a fresh instrumented process every time it is made alone.
+					instAlone([]int{x})
+					instCrashSeen = true
+				}
 				if _, ex := excluded[x]; ex {
 					again = true
 				}
@@ -241,6 +276,9 @@ func buildOracle(b builds, cfg tierCfg, pre map[int]string) oracleInfo {
 		}
 		if !again || attempt >= 3 {
 			break
+		}
+		if instCrashSeen {
+			instAlone(all)
 		}
 		// (the full passes get four times the wall of a simulator process: a tree whose calls
 		// are slow is decided slowly rather than not at all; the soak pass has its own budget)
